@@ -6,7 +6,7 @@ import itertools
 from .. import crop, tlc
 
 CLAIMS = ("reap_value_complete", "reap_raise_complete", "batch_order", "batches", "outcome_sow", "outcome_grow",
-          "outcome_grow_set", "outcome_grow_missing", "outcome_reload", "outcome_resow")
+          "outcome_grow_set", "outcome_grow_missing", "outcome_reload", "outcome_resow", "outcome_fix_fn", "obs_grow", "obs_grow_missing")
 
 
 def batchings(n, dense):
@@ -82,6 +82,11 @@ def run(rep):
     runs = [
         dict(name="C04_configs", configs=configs(rep.tier), acts=["grow_missing", "reap_default"], max_steps=2, mode="bfs",
              need=["DoSow", "DoGrowMissing", "ReapDefault"], sample=1500 if q else 12000),
+        # a corrected function reaches the growers through a re-sow (function un-pickled from the crop on every grow)
+        dict(name="C04_fixfn", configs=[crop.mk([3], bmode="count", bval=2, failing=[2]), crop.mk([2, 2], bmode="size", bval=3, failing=[1, 3]),
+                                        crop.mk([], nca=1, cases=[[2], [1], [3]], kind="cases", bmode="none", failing=[3], shufCtor=1)],
+             acts=["grow", "grow_missing", "fix_fn", "resow", "reload", "reap_default"], max_steps=7, mode="sim", num=200 if q else 2500,
+             need=["DoFixFn", "DoReSow"]),
         dict(name="C04_histories", configs=history_configs(rep.tier),
              acts=["grow", "grow_set", "grow_missing", "reload", "resow", "reap_default"], max_steps=7 if q else 10, mode="sim",
              num=800 if q else 8000, need=["GrowAny", "GrowSetAny", "DoReload", "DoReSow", "ReapDefault"]),
